@@ -547,3 +547,39 @@ def serialize_commands_any(cmds):
     """serialize_commands for a command list of ANY length (the loop written as a left fold)"""
     from pyvc.api import fold
     return fold(serialize_step, b'', cmds, len(cmds), key='script-ser')
+
+
+def op_checkmultisig(st, valid):
+    """... dummy sig_1 .. sig_m m pk_1 .. pk_n n OP_CHECKMULTISIG (interpreter.cpp): counts are script numbers (at most 4 bytes), 0 <= n <= 20,
+    0 <= m <= n; signatures and keys are compared from the top of the stack downwards, a key is skipped when it does not match the current
+    signature, and the check fails as soon as more signatures than keys remain; one extra item (the dummy) is removed.
+    valid(sig, key) is the signature check (abstract)."""
+    if len(st) < 1 or len(st[-1]) > MAX_NUM:
+        return None
+    n = script_num_decode(st[-1])
+    if n < 0 or n > 20 or len(st) < n + 2:
+        return None
+    keys = st[len(st) - 1 - n:len(st) - 1]
+    m_item = st[len(st) - 2 - n]
+    if len(m_item) > MAX_NUM:
+        return None
+    m = script_num_decode(m_item)
+    if m < 0 or m > n or len(st) < n + m + 3:
+        return None
+    sigs = st[len(st) - 2 - n - m:len(st) - 2 - n]
+    isig, ikey = m - 1, n - 1            # from the top downwards
+    success = True
+    while success and isig >= 0:
+        if valid(sigs[isig], keys[ikey]):
+            isig -= 1
+        ikey -= 1
+        if isig > ikey:
+            success = False
+    return st[:len(st) - n - m - 3] + [_b(success)]
+
+
+def op_checkmultisigverify(st, valid):
+    r = op_checkmultisig(st, valid)
+    if r is None:
+        return None
+    return op_verify(r)
